@@ -318,6 +318,12 @@ func (pi *planIndex) handler(gates *gateSet) fakecluster.Handler {
 // client write its bytes as specified, releases held replies in the drawn order, and collects what each
 // client received until want[i] replies arrived (or EOF / malformed stream / deadline).
 func runPipes(f *Fixture, spec *PipeSpec, want []int, deadline time.Duration) *PipeResult {
+	return runPipesQuiet(f, spec, want, deadline, 0, nil)
+}
+
+// runPipesQuiet is runPipes followed by a quiet period during which stray bytes would show up; clients whose
+// reference sequence ends with a closing reply (QUIT) are given time to see the end of the connection.
+func runPipesQuiet(f *Fixture, spec *PipeSpec, want []int, deadline, quiet time.Duration, exps [][]Expect) *PipeResult {
 	pi := indexPlans(spec)
 	gates := &gateSet{}
 	f.Cluster.ResetLog()
@@ -397,6 +403,17 @@ func runPipes(f *Fixture, spec *PipeSpec, want []int, deadline time.Duration) *P
 	res.Held, _ = gates.counts()
 
 	waitClients(f, clients, want, deadline)
+	for i, c := range clients {
+		if c == nil || exps == nil || i >= len(exps) || len(exps[i]) == 0 {
+			continue
+		}
+		if exps[i][len(exps[i])-1].Closes && len(c.Snapshot().Replies) >= want[i] {
+			c.WaitEOF(2 * time.Second)
+		}
+	}
+	if quiet > 0 {
+		time.Sleep(quiet)
+	}
 	return res.collect(f, clients)
 }
 
